@@ -49,8 +49,9 @@ class Miss(Exception):
 
 
 NAT_PARAMS = ("num_round", "max_train", "patience")
-LEAN_TYPE = dict(state="Nat", loss="Loss", nat="Nat", lr="Nat", list_loss="List Loss", list_list_loss="List (List Loss)")
-LEAN_DEFAULT = dict(state="0", loss=".nan", nat="0", lr="0", list_loss="[]", list_list_loss="[]")
+PROOF_VOCABULARY = {"best_state", "best_loss", "svi_state", "losses", "wait_counter", "lr_cur", "r", "j", "loss"}
+LEAN_TYPE = dict(state="Nat", loss="Loss", nat="Nat", lr="Nat", list_loss="List Loss", list_list_loss="List (List Loss)", bool="Bool")
+LEAN_DEFAULT = dict(state="0", loss=".nan", nat="0", lr="0", list_loss="[]", list_list_loss="[]", bool="false")
 
 
 def seg(node):
@@ -128,6 +129,8 @@ class Translator:
         return None
 
     def lr(self, e) -> str:
+        if isinstance(e, ast.IfExp):
+            return f"(if {self.cond(e.test)} then {self.lr(e.body)} else {self.lr(e.orelse)})"
         if isinstance(e, ast.Name):
             if e.id == "lr_init":
                 return "0"
@@ -148,6 +151,14 @@ class Translator:
         return seg(e) in ("jnp.inf", "np.inf", "numpy.inf", "math.inf", "float('inf')", 'float("inf")')
 
     def kind_of(self, e) -> str:
+        if isinstance(e, ast.IfExp):
+            a, b = self.kind_of(e.body), self.kind_of(e.orelse)
+            if a != b:
+                raise Miss(f"conditional expression of two kinds ({a}, {b})")
+            return a
+        if isinstance(e, (ast.Compare, ast.BoolOp)) or (isinstance(e, ast.UnaryOp) and isinstance(e.op, ast.Not)) \
+                or (isinstance(e, ast.Call) and seg(e.func) in ("jnp.isnan", "np.isnan", "math.isnan")):
+            return "bool"
         if isinstance(e, ast.Name):
             if e.id in NAT_PARAMS:
                 return "nat"
@@ -172,6 +183,10 @@ class Translator:
         raise Miss(f"expression {seg(e)}")
 
     def expr(self, e, kind) -> str:
+        if isinstance(e, ast.IfExp) and kind != "lr":
+            return f"(if {self.cond(e.test)} then {self.expr(e.body, kind)} else {self.expr(e.orelse, kind)})"
+        if kind == "bool":
+            return self.cond(e)
         if kind == "nat":
             return self.nat(e)
         if kind == "lr":
@@ -192,6 +207,8 @@ class Translator:
         raise Miss(f"{kind} expression {seg(e)}")
 
     def cond(self, e) -> str:
+        if isinstance(e, ast.Name) and self.types.get(e.id) == "bool":
+            return f"s.{e.id}"
         if isinstance(e, ast.BoolOp):
             op = " && " if isinstance(e.op, ast.And) else " || "
             return "(" + op.join(self.cond(v) for v in e.values) + ")"
@@ -403,6 +420,13 @@ class Translator:
         kinds = [self.types.get(r.id) for r in reads]
         if kinds != ["state", "state", "list_loss"]:
             raise Miss(f"returned variables have kinds {kinds}")
+        # the equivalence proof (Proofs/GenEarlyStop.lean) speaks about the routine's variables by name: a renaming is outside
+        # what it can follow — keep the committed text (behavioural tie alone) rather than break an obligation for it
+        missing = sorted(PROOF_VOCABULARY - set(self.order))
+        if missing or not all(n.isidentifier() and not n.startswith("_") for n in self.order):
+            raise Miss(f"local variables differ from the proof's vocabulary (missing {missing})")
+        if [r.id for r in reads] != ["best_state", "svi_state", "losses"]:
+            raise Miss(f"returned variables {[r.id for r in reads]}")
         fields = [f"  {n} : {LEAN_TYPE[self.types[n]]} := {LEAN_DEFAULT[self.types[n]]}" for n in self.order]
         fields += [f"  bound_{n} : Bool := false" for n in sorted(self.bound)]
         guard = " && ".join(f"s.bound_{n}" for n in sorted(self.bound)) or "true"
